@@ -3,7 +3,7 @@ import os
 from .. import sym as S
 from ..values import UNDEF, veq
 from ..scenario import OrderView
-from ..histcheck import panic_obligations, reach_witness, busy_witness, sequences, run_hist
+from ..histcheck import match_unwind_for, panic_obligations, reach_witness, busy_witness, sequences, run_hist
 from ..framework import Run, load_known
 
 W = 70
@@ -80,7 +80,7 @@ def cubes(tier):
     for s in sequences(depth, nadds):
         if 'M' not in s:
             continue
-        mu = 5 if s.count('M') <= 1 else 3
+        mu = match_unwind_for(s, 5)
         out.append({'seq': s, 'match_unwind': mu, 'pop_unwind': depth + 3, 'qty_mode': 'full', 'price': price,
                     'family': 'history'})
     return out
